@@ -142,7 +142,8 @@ def scan_collect(prop, prefixes, camp_driver, tier, verdict, module="Campaign", 
     if require_patterns:
         have = {(k[1], k[2]) for k in patterns}
         missing = [p_ for p_ in require_patterns if p_ not in have]
-        if missing:
+        if missing and not verdict.violations:
+            # (when the code under test is broken the patterns may be unrecognisable: the violations are the verdict then)
             raise RuntimeError("coverage obligation not met, patterns never exercised: %r" % (missing,))
     sample = [ev for ev in events[:400] if ev["k"] in ("Cfg", "Pt", "Jump")][:3]
     return {"states": cres["distinct"] + tv["states"], "transitions": cres["states"] + tv["generated"],
